@@ -477,10 +477,33 @@ def rand_case(rng, d, nweeks=3, raw_bytes=False, big=False):
     files = []
     bad_byte = rng.choice(['\udcff', '\udc80', '\udcfe'])
     builds = [rand_build(rng, cfg) for _ in range(rng.choice([1, 2, 2, 3]))]
+    shift = False
+    if bigprog is None and cfg['progs'] and rng.random() < 0.1:
+        # two DIFFERENT builds whose five fields give the same text when they are joined with a separator, because the
+        # separator moves between neighbouring fields (version "v1.0.0-pre" + "go1.21.0" / "v1.0.0" + "pre-go1.21.0";
+        # program "p@q" + "v1" / "p" + "q@v1"): the first is approved, the second is not
+        p = rng.choice(cfg['progs'])
+        g = (cfg['gover'] or ['go1.21.0'])[0]
+        o, a = (cfg['goos'] or ['linux'])[0], (cfg['goarch'] or ['amd64'])[0]
+        sep = rng.choice(['-', '-', '@', '/', ' '])
+        if sep == '@':
+            v = (p['versions'] or ['v1.0.0'])[0]
+            pair = [[p['name'], v, g, o, a], [p['name'].split('/')[0] if '/' in p['name'] else 'x', '/'.join(p['name'].split('/')[1:]) + '@' + v, g, o, a]]
+            if '/' not in p['name']:
+                pair = None
+        else:
+            v = 'v1.0.0' + sep + 'pre'
+            if v not in p['versions']:
+                p['versions'].append(v)
+            pair = [[p['name'], v, g, o, a], [p['name'], 'v1.0.0', 'pre' + sep + g, o, a]]
+        if pair:
+            rng.shuffle(pair)
+            builds = [bdict(b) for b in pair] + builds[:1]
+            shift = True
     if bigprog is not None:      # the big file belongs to a build the configuration approves
         builds[0] = bdict([bigprog['name'], bigprog['versions'][0], cfg['gover'][0], cfg['goos'][0], cfg['goarch'][0]])
-    for i in range(rng.choice([1, 2, 3, 4])):
-        b = builds[0] if (big and i == 0) else rng.choice(builds)
+    for i in range(rng.choice([2, 3, 4]) if shift else rng.choice([1, 2, 3, 4])):
+        b = builds[0] if (big and i == 0) else builds[i] if (shift and i < 2) else rng.choice(builds)
         names = rand_local_names(rng, cfg, b['program'], rng.choice([1, 2, 4, 6, 9]))
         if big and i == 0:
             extra = set('wide/chart:b%d' % k for k in range(0, 70, 1)) | set('pad/%03d' % k for k in range(rng.choice([60, 400])))
@@ -497,7 +520,7 @@ def rand_case(rng, d, nweeks=3, raw_bytes=False, big=False):
             if coerced(cand) not in set(coerced(n) for n in names):
                 names = sorted(set(names) | {cand})
         large = rng.random() < 0.1
-        files.append({'id': i + 1, 'build': b, 'week': rng.randint(1, nweeks), 'expired': (big and i == 0) or rng.random() >= 0.12,
+        files.append({'id': i + 1, 'build': b, 'week': 1 if (shift and i < 2) else rng.randint(1, nweeks), 'expired': (big and i == 0) or (shift and i < 2) or rng.random() >= 0.12,
                       'counts': [{'n': n, 'v': rng.randint(1, 10 ** 8 if large else 50)} for n in names]})
     rates = [c['rate'] for p in cfg['progs'] for c in p['counters'] + p['stacks']] or [d // 2]
     r = rng.choice(rates)
